@@ -312,6 +312,9 @@ class World:
         g = X.Gen(self.ns, self.rng, refchoice=lambda tx, b: self.refchoice(tx, b, allow),
                   lookup=lookup, xobj=self.xobj_choice if "foreign" in allow else None, **kw)
         g.omit_p = 0 if getattr(self, "forced", None) else getattr(self, "omit_p", 0.08)
+        if like_buf is not None and not getattr(self, "forced", None):
+            # "keeps its value" as an input form: the current value with its references denoting the same referents
+            g.keep = lambda ftx, cur: (None if _unknown_cap(ftx, cur) else self.copy_input(ftx, cur, like_buf, True))
         return g
 
     def xobj_choice(self, tx, b):
@@ -561,6 +564,7 @@ class World:
             sb = rng.randrange(len(self.bufs))
             g = self.gen(("null", "alias", "new") if sb != b else allow, np_forms=np_forms, like_buf=b)
             g.permute_fields = True
+            g.keep = None               # (this value CONSTRUCTS an object: what a dictionary omits there is the default)
             val = g.value(etx, sb, like=cur)
             dest_abs = None
             try:
